@@ -451,6 +451,17 @@ func (rtcmHandler *Handler) GetMessage(bitStream []byte) (*Message, error) {
 
 	if utils.MSM(message.MessageType) {
 
+		// The message must be long enough to contain the message type, the
+		// station ID and the timestamp.  (The CRC check only shows that the
+		// frame is intact, not that the message in it is long enough.)
+		const minLengthOfMSM = (header.LenMessageType + header.LenStationID + header.LenTimeStamp + 7) / 8
+		if messageLength < minLengthOfMSM {
+			message.ErrorMessage = fmt.Sprintf(
+				"message type %d is too short to contain a timestamp - got %d bytes, expected at least %d",
+				messageType, messageLength, minLengthOfMSM)
+			return message, errors.New(message.ErrorMessage)
+		}
+
 		// The message is an MSM so get the timestamp and set the UTCTime.  The
 		// message frame starts with 3 bytes of leader, a message type, a
 		// station ID and a timestamp.  The timestamp is relative to the start of
